@@ -106,6 +106,9 @@ def setitem(obj, idx, val):
         if isinstance(idx, np.ndarray) and idx.dtype == object:
             from . import symnp
             idx = symnp.index_array(idx)
+        if type(obj) is np.ndarray and obj.dtype.kind in 'iu' and isinstance(val, Z) and not isinstance(val, BV):
+            # a Python int (symbolic) stored into a concrete integer array: concretised on demand (forks over its values)
+            val = val.concretize()
         if type(obj) is np.ndarray and obj.dtype != object and _has_sym(val):
             conc = _concrete_floats(val) if getattr(core.ctx(), 'mode', 'exact') == 'mixed' and obj.dtype.kind == 'f' else None
             if conc is None:
